@@ -202,43 +202,6 @@ set_option hygiene false in
 macro "step_case" : tactic => `(tactic| (step_open; inv_case))
 
 set_option hygiene false in
-macro "inv_case_dbg" : tactic => `(tactic| (
-  inv_open
-  · first | f_mutex | (trace "FAILED mutex"; sorry)
-  · first | f_sawGo | (trace "FAILED sawGo"; sorry)
-  · first | f_preSet | (trace "FAILED preSet"; sorry)
-  · first | f_win | (trace "FAILED win"; sorry)
-  · first | f_unl | (trace "FAILED unl"; sorry)
-  · first | f_freshW | (trace "FAILED freshW"; sorry)
-  · first | f_freshP | (trace "FAILED freshP"; sorry)
-  · first | f_snapW | (trace "FAILED snapW"; sorry)
-  · first | f_snapJ | (trace "FAILED snapJ"; sorry)
-  · first | f_liveW | (trace "FAILED liveW"; sorry)
-  · first | f_liveJ | (trace "FAILED liveJ"; sorry)
-  · first | f_noLost | (trace "FAILED noLost"; sorry)
-  · first | f_emptyW | (trace "FAILED emptyW"; sorry)
-  · first | f_emptyJ | (trace "FAILED emptyJ"; sorry)
-  · first | f_inJ | (trace "FAILED inJ"; sorry)
-  · first | f_locThen | (trace "FAILED locThen"; sorry)
-  · first | f_locErr | (trace "FAILED locErr"; sorry)
-  · first | f_locQ | (trace "FAILED locQ"; sorry)
-  · first | f_nodupQ | (trace "FAILED nodupQ"; sorry)
-  · first | f_locD | (trace "FAILED locD"; sorry)
-  · first | f_nodupD | (trace "FAILED nodupD"; sorry)
-  · first | f_locFresh | (trace "FAILED locFresh"; sorry)
-  · first | f_ranLoc | (trace "FAILED ranLoc"; sorry)
-  · first | f_errLoc | (trace "FAILED errLoc"; sorry)
-  · first | f_ranGo | (trace "FAILED ranGo"; sorry)
-  · first | f_remLoc | (trace "FAILED remLoc"; sorry)
-  · first | f_errRaises | (trace "FAILED errRaises"; sorry)
-  · first | f_g9ne | (trace "FAILED g9ne"; sorry)
-  · first | f_g10ne | (trace "FAILED g10ne"; sorry)
-  · first | f_locBorn | (trace "FAILED locBorn"; sorry)))
-
-set_option hygiene false in
-macro "step_case_dbg" : tactic => `(tactic| (step_open; inv_case_dbg))
-
-set_option hygiene false in
 /-- facts about registration `k` whose location is known (`hk : s.loc k = …`), before `inv_open` -/
 macro "loc_facts" : tactic => `(tactic| (
   have hQ := h.locQ k
